@@ -39,6 +39,7 @@ ASSUMPTIONS = ["depth <= 2 (quick) / 3 (thorough) refinement events; NKdiv <= 4 
                "tetrahedral grids: default 5-tetrahedra cell, GridTrigonal, split thresholds length in {1,2,4,8}"]
 
 PREC = 10 ** 9
+HORIZON_CPU_S = 20
 
 
 def fr(x, maxden=10 ** 6):
@@ -232,8 +233,9 @@ def run_grid_case(case):
     system.pointgroup = pg
     ops = reduced_ops(specs, case["lat"])
     DEN[0] = 2 * int(np.lcm.reduce([int(d) * int(m) ** tier_depth for d, m in zip(case["div"], case["mesh"])]))
-    if len(ops) != pg.size:
-        return {"ok": False, "key": "group:size_differs_from_reference", "detail": f"{case}: library {pg.size} reference {len(ops)}"}
+    nref = len(groups.reference_elements(specs))     # `ops` is deduplicated by the action on k (I and T act alike)
+    if nref != pg.size:
+        return {"ok": False, "key": "group:size_differs_from_reference", "detail": f"{case}: library {pg.size} reference {nref}"}
     use_sym = True
     grid = wb.Grid(system, NKdiv=case["div"], NKFFT=1)
     K0 = grid.get_K_list(use_symmetry=use_sym)
@@ -326,32 +328,19 @@ def run_grid_case(case):
             "outcome": (len(ops), nstates > 1, bool(merges)), "obs": {"group_order": len(ops), "initial_points": len(K0), "states": nstates}}
 
 
-def tetra_volume6(v):
-    v = [tuple(fr(x) for x in p) for p in v]
-    a = [[v[i][j] - v[0][j] for j in range(3)] for i in (1, 2, 3)]
-    det = (a[0][0] * (a[1][1] * a[2][2] - a[1][2] * a[2][1]) - a[0][1] * (a[1][0] * a[2][2] - a[1][2] * a[2][0])
-           + a[0][2] * (a[1][0] * a[2][1] - a[1][1] * a[2][0]))
-    return abs(det)
+def vol_np(verts):
+    """volumes of an array of tetrahedra (n,4,3); vertices are dyadic rationals in reduced coordinates, so
+    double precision is exact up to rounding of O(1e-16)"""
+    v = np.asarray(verts, dtype=float)
+    return np.abs(np.linalg.det(v[:, 1:, :] - v[:, :1, :])) / 6.0
 
 
-def bary_inside(v, p):
-    """strictly inside test with exact arithmetic; returns 1 inside, 0 on boundary, -1 outside"""
-    v = [tuple(fr(x) for x in q) for q in v]
-    tot = tetra_volume6(v)
-    if tot == 0:
-        return -1
-    s = Fr(0)
-    onb = False
-    for i in range(4):
-        w = list(v)
-        w[i] = p
-        vi = tetra_volume6(w)
-        if vi == 0:
-            onb = True
-        s += vi
-    if s != tot:
-        return -1
-    return 0 if onb else 1
+def bary_np(verts, p):
+    """barycentric coordinates of point p in each tetrahedron (n,4)"""
+    v = np.asarray(verts, dtype=float)
+    T = np.transpose(v[:, 1:, :] - v[:, :1, :], (0, 2, 1))
+    lam = np.linalg.solve(T, np.broadcast_to((np.asarray(p) - v[:, 0, :])[:, :, None], (len(v), 3, 1)))[:, :, 0]
+    return np.concatenate([1 - lam.sum(axis=1, keepdims=True), lam], axis=1)
 
 
 def run_tetra_case(case):
@@ -360,59 +349,79 @@ def run_tetra_case(case):
     system = get_system(case["lat"])
     system.set_pointgroup()
     cls = GridTetra if case["grid"] == "GridTetra" else GridTrigonal
-    grid = cls(system, length=case["length"], NKFFT=1, refine_by_volume=case["by_vol"], refine_by_size=case["by_size"])
-    K_list = grid.get_K_list()
     tag = f"{case['grid']}/{case['lat']}/length{case['length']}/vol{case['by_vol']}/size{case['by_size']}"
-    if len(K_list) > 4000:
+    # horizon: the splitting loops at least halve the largest tetrahedron per pass, so a construction that
+    # burns more than HORIZON_CPU_S seconds of *CPU time* (ITIMER_VIRTUAL: independent of machine load) with
+    # fewer than 20000 tetrahedra is a livelock, not a big grid
+    import signal
+
+    class Horizon(Exception):
+        pass
+
+    def on_alarm(*a):
+        raise Horizon()
+    old = signal.signal(signal.SIGVTALRM, on_alarm)
+    signal.setitimer(signal.ITIMER_VIRTUAL, HORIZON_CPU_S)
+    try:
+        grid = cls(system, length=case["length"], NKFFT=1, refine_by_volume=case["by_vol"], refine_by_size=case["by_size"])
+    except Horizon:
+        return {"ok": False, "key": "tetra:grid_construction_does_not_terminate",
+                "detail": f"{tag}: GridTetra.__init__ still splitting after {HORIZON_CPU_S} s of CPU time"}
+    finally:
+        signal.setitimer(signal.ITIMER_VIRTUAL, 0)
+        signal.signal(signal.SIGVTALRM, old)
+    K_list = grid.get_K_list()
+    if len(K_list) > 20000:
         return {"ok": True, "nontrivial": False, "obs": f"{len(K_list)} tetrahedra: above the cap, skipped", "states": 0, "transitions": 0}
-    verts = [K.vertices + K.K[None, :] for K in K_list]
-    vols = [tetra_volume6(v) / 6 for v in verts]
-    tot = sum(vols)
-    full = Fr(1) if case["grid"] == "GridTetra" else None
-    if full is not None and tot != full:
-        return {"ok": False, "key": "tetra:volumes_do_not_fill_cell", "detail": f"{tag}: total volume {tot}"}
-    fsum = sum(K.factor for K in K_list)
-    if abs(fsum - 1) > 1e-12:
-        return {"ok": False, "key": "tetra:weights_do_not_sum_to_one", "detail": f"{tag}: {fsum!r}"}
-    for K, v in zip(K_list, vols):
-        if abs(K.factor - float(v / tot)) > 1e-13:
-            return {"ok": False, "key": "tetra:weight_not_proportional_to_volume", "detail": f"{tag}: factor {K.factor} volume share {float(v / tot)}"}
-    # sample points (rational, generic) are in exactly one tetrahedron
-    if full is not None:
-        samples = [(Fr(a, 7) - Fr(1, 2) + Fr(1, 1009), Fr(b, 7) - Fr(1, 2) + Fr(1, 2003), Fr(c, 7) - Fr(1, 2) + Fr(1, 3001))
-                   for a in range(7) for b in range(7) for c in range(7)]
-        nbox = len(verts)
-        lo = np.array([v.min(axis=0) for v in verts])
-        hi = np.array([v.max(axis=0) for v in verts])
-        for p in samples[:: (1 if nbox < 300 else 7)]:
-            pf = np.array([float(x) for x in p])
-            cand = np.where(np.all(lo <= pf + 1e-12, axis=1) & np.all(hi >= pf - 1e-12, axis=1))[0]
-            cnt = [bary_inside(verts[i], p) for i in cand]
-            if cnt.count(1) != 1 or cnt.count(0) != 0:
-                return {"ok": False, "key": "tetra:point_not_in_exactly_one_tetrahedron",
-                        "detail": f"{tag}: sample {tuple(float(x) for x in p)} is inside {cnt.count(1)} tetrahedra (boundary of {cnt.count(0)})"}
+    verts = np.array([K.vertices + K.K[None, :] for K in K_list])
+    vols = vol_np(verts)
+    tot = vols.sum()
+    full = case["grid"] == "GridTetra"
+    if vols.min() <= 0:
+        return {"ok": False, "key": "tetra:degenerate_tetrahedron", "detail": f"{tag}: volume {vols.min()}"}
+    if full and abs(tot - 1) > 1e-12:
+        return {"ok": False, "key": "tetra:volumes_do_not_fill_cell", "detail": f"{tag}: total volume {tot!r}"}
+    fac = np.array([K.factor for K in K_list])
+    if abs(fac.sum() - 1) > 1e-12 or fac.min() < 0:
+        return {"ok": False, "key": "tetra:weights_do_not_sum_to_one", "detail": f"{tag}: {fac.sum()!r}"}
+    if np.abs(fac - vols / tot).max() > 1e-13:
+        i = int(np.argmax(np.abs(fac - vols / tot)))
+        return {"ok": False, "key": "tetra:weight_not_proportional_to_volume", "detail": f"{tag}: factor {fac[i]} volume share {vols[i] / tot}"}
+    # generic sample points of the cell are strictly inside exactly one tetrahedron
+    if full:
+        n = 7 if len(K_list) < 2000 else 5
+        for a in range(n):
+            for b in range(n):
+                for c in range(n):
+                    p = np.array([a / n - 0.5 + 1 / 1009., b / n - 0.5 + 1 / 2003., c / n - 0.5 + 1 / 3001.])
+                    lam = bary_np(verts, p)
+                    inside = np.all(lam > 1e-11, axis=1).sum()
+                    onb = (np.all(lam > -1e-11, axis=1) & ~np.all(lam > 1e-11, axis=1)).sum()
+                    if inside != 1 or onb != 0:
+                        return {"ok": False, "key": "tetra:point_not_in_exactly_one_tetrahedron",
+                                "detail": f"{tag}: sample {p.tolist()} is inside {inside} tetrahedra (on the boundary of {onb})"}
     # one divide() on every tetrahedron: children tile the parent and keep weight
     ntrans = 0
-    for K, v, vol in list(zip(K_list, verts, vols))[:400]:
+    for K, v, vol in list(zip(K_list, verts, vols))[:300]:
         for ndiv in (2, 3):
             P = K.copy()
             ch = P.divide(ndiv=ndiv, refine=True)
             ntrans += 1
-            cv = [tetra_volume6(c.vertices + c.K[None, :]) / 6 for c in ch]
-            if sum(cv) != vol:
-                return {"ok": False, "key": "tetra:divide_changes_volume", "detail": f"{tag}: parent {vol} children {cv}"}
+            cverts = np.array([c.vertices + c.K[None, :] for c in ch])
+            cv = vol_np(cverts)
+            if abs(cv.sum() - vol) > 1e-14 * max(1, vol) or len(ch) != ndiv:
+                return {"ok": False, "key": "tetra:divide_changes_volume", "detail": f"{tag}: parent {vol} children {cv.tolist()}"}
             if abs(sum(c.factor for c in ch) - K.factor) > 1e-15 or P.factor != 0:
                 return {"ok": False, "key": "tetra:divide_changes_weight", "detail": f"{tag}: parent {K.factor} children {[c.factor for c in ch]}"}
             for c, cvv in zip(ch, cv):
-                if abs(c.factor - K.factor * float(cvv / vol)) > 1e-15:
+                if abs(c.factor - K.factor * cvv / vol) > 1e-15:
                     return {"ok": False, "key": "tetra:child_weight_not_volume_share", "detail": f"{tag}"}
-                cen = tuple(sum(fr(x) for x in col) / 4 for col in zip(*(c.vertices + c.K[None, :])))
-                if bary_inside(v, cen) != 1:
-                    return {"ok": False, "key": "tetra:child_outside_parent", "detail": f"{tag}: child centre {cen}"}
-            # children interiors disjoint: the centre of one child is not inside another
-            for a, b in itertools.permutations(range(len(ch)), 2):
-                cen = tuple(sum(fr(x) for x in col) / 4 for col in zip(*(ch[a].vertices + ch[a].K[None, :])))
-                if bary_inside(ch[b].vertices + ch[b].K[None, :], cen) == 1:
+            cents = cverts.mean(axis=1)
+            for i, cen in enumerate(cents):
+                if not np.all(bary_np(v[None], cen) > 1e-12):
+                    return {"ok": False, "key": "tetra:child_outside_parent", "detail": f"{tag}: child centre {cen.tolist()}"}
+                lam = bary_np(cverts, cen)
+                if np.all(lam > 1e-12, axis=1).sum() != 1:
                     return {"ok": False, "key": "tetra:children_overlap", "detail": tag}
     return {"ok": True, "nontrivial": (tag if len(K_list) > 5 else False), "states": len(K_list), "transitions": ntrans,
             "traces": ntrans, "outcome": ("tetra", len(K_list) > 5), "obs": {"tetrahedra": len(K_list)}}
